@@ -104,6 +104,8 @@ class Extender:
             kw['mac_key'] = self.key + b'!'
         elif b == 'other-key-valid-mac':
             kw['mac_key'] = bytes(rng.getrandbits(8) for _ in range(rng.randint(1, 70)))
+            while kw['mac_key'].rstrip(b'\0') == self.key.rstrip(b'\0'):      # HMAC pads keys with zero bytes: such a key would be the right one
+                kw['mac_key'] = bytes(rng.getrandbits(8) for _ in range(rng.randint(2, 70)))
         elif b == 'other-pdu-version':
             ver = 3 - ver
         if b == 'error-pdu':
